@@ -197,7 +197,8 @@ prop(
     must_see=[("honest_batch_accepted", 20), ("flipped_batch_rejected", 60), ("transmitted_flip_rejected", 20), ("block_position_indices_ok", 32768),
               ("crafted_proof_rejected", 500), ("crafted_intended_set_produced", 1500), ("control_harness_prover_accepted", 40),
               ("control_honest_accepted", 40), ("honest_code_on_wrong_product_rejected", 40), ("crafted_singletons", 40),
-              ("crafted_strategies", 10), ("crafted_shapes", 14)],
+              ("crafted_strategies", 10), ("crafted_shapes", 14),
+              ("batch_push_orders", 3), ("deep_recursion_skipped_in_quick_tier", 1, "quick"), ("deep_recursion_multiplications", 12000000, "thorough")],
     watchdog_s={"quick": 1200, "thorough": 7200},
 )
 
